@@ -133,7 +133,9 @@ func (o *decodeOracle) try(idx int, origin string, in []byte) {
 		// a value that decodes successfully re-encodes to bytes that decode to the same value
 		b := lib.TakeBuffer()
 		if e := safeEncode(v, b, edf.Options{}); e != nil {
-			if v != nil {
+			// (time.Time: the standard library's UnmarshalBinary accepts zone offsets that its MarshalBinary refuses;
+			// that asymmetry is not ergo's and says nothing about how ergo treats hostile input)
+			if v != nil && !strings.Contains(e.Error(), "Time.MarshalBinary") {
 				o.r.Fail("decoded-value-not-encodable", "%s decodes to %T but that value is refused by Encode: %v", desc, v, e)
 			}
 			return
